@@ -2,9 +2,9 @@ from lib.driver import Ob
 
 LEVEL = 'model_checking'
 EXPLANATION = ('Purity is reduced to the state that outlives a call: the process-wide model cache and the thread-local decimal context. (1) One inductive cache step from an '
-               'arbitrary valid cache state (shared with C17) covers request histories of any length and order. (2) symx enumerates, through the solver, every ordered pair of '
-               'requests from a pool of 24 public-API requests (5 recognisers, 6 cultures incl. regional variants), cold or warm cache, and the thread on which the second '
-               'request runs; its result must equal that of the same request made alone in a fresh state. (3) Up to 4 threads issue the same request at once on a cold cache.')
+               'arbitrary valid cache state (shared with C17) covers request histories of any length and order. (2) every ordered pair of '
+               'requests from a pool of 28 public-API requests (5 recognisers, 6 cultures incl. regional variants, numerals in both separator conventions), cold or warm cache, and the thread on which the second '
+               'request runs; its result must equal that of the same request made alone in a fresh interpreter. (2b) At unit level symx runs the real digit kernel twice on one parser object, the second numeral with symbolic digits. (3) Up to 4 threads issue the same request at once on a cold cache.')
 ASSUMPTIONS = ['the pool of requests (listed in harness/C02.py) stands for "any request": it contains fraction/decimal arithmetic in en, es, zh (the thread-local precision), '
                'date-time with a fixed reference, currency, dimension, sequence, choice, and culture codes that are resolved by nearest-language mapping',
                'no other state survives a call: the inventory of module-level mutable state was done by reading (ModelFactory.__cache and the decimal context); not re-derived per run']
@@ -18,14 +18,25 @@ def obligations(tier):
     obs = [Ob('O2.1-cache-step', 'sx', 'harness.C17:h_cache_step', slices=[{'req': r} for r in range(12)], timeout=t,
               descr='one request from an arbitrary valid cache state returns the model of its own key and preserves the invariant (histories of any length/order)',
               bounds='key pool 2 types x 3 cultures x 2 options; <= 2 pre-cached entries', encodes=[T + 'model:ModelFactory.get_model', T + 'model:ModelFactory.try_get_model']),
-           Ob('O2.2-history-thread', 'fn', 'harness.C02:history_pairs', slices=[{'i': i} for i in range(24)], timeout=t,
+           Ob('O2.2-history-thread', 'fn', 'harness.C02:history_pairs', slices=[{'i': i} for i in range(28)], timeout=t,
               descr='second request of any ordered pair = the same request made alone, for cold/warm cache and main/other thread',
-              bounds='24 x 24 ordered pairs x cold/warm x same/other thread',
-              engine='symx symbolic execution (solver-driven exploration of request pairs); counterexamples carry the process history',
+              bounds='28 x 28 ordered pairs x cold/warm x same/other thread',
+              engine='exhaustive composition check over the finite pair space against a fresh-interpreter baseline (not a solver verdict); counterexamples carry the process history',
               encodes=['recognizers_number.number.parsers:BaseNumberParser.parse', 'recognizers_number.number.cjk_parsers:CJKNumberParser.parse',
                        'recognizers_number.number.utilities:precision', T + 'recognizer:Recognizer.get_model']),
            Ob('O2.3-concurrent', 'sx', 'harness.C02:h_concurrent', timeout=t, descr='2..4 threads issuing the same request at once on a cold cache all get the solo answer',
               bounds='16 requests x 2..4 threads (one schedule each: exercised, not explored)', encodes=[T + 'model:ModelFactory.register_model_in_cache'])]
+    from props.C03 import shapes, swap_shapes, MULTI
+    hs = []
+    for c in (['en-us', 'fr-fr', 'de-de'] if tier == 'quick' else ['en-us', 'es-es', 'es-mx', 'fr-fr', 'pt-br', 'de-de', 'it-it', 'nl-nl']):
+        ss = shapes(tier) + (swap_shapes(tier) if c in MULTI else [])
+        ss = [x for x in ss if not (x.get('neg') and x.get('grouped') and x['groups'] == [3, 3] and not x.get('frac'))]      # F13 region (C03)
+        hs += [{'culture': c, 'shape': x} for x in (ss[::2] if tier == 'quick' else ss)]
+    obs.append(Ob('O2.4-parser-history', 'sx', 'harness.C03:h_history_digital', slices=hs, timeout=t,
+                  descr='purity at unit level: one number-parser object (the kind the process-wide cache keeps) parses each of 7..10 numerals that drive every separator branch '
+                        '(own convention, the other convention, single separator, sign, fraction), then the slice numeral with symbolic digits: its value is still the number written',
+                  bounds='every digit assignment of each C03 shape (quick: every second shape, 3 cultures; thorough: all shapes, 8 cultures) after each of the first requests',
+                  encodes=['recognizers_number.number.parsers:BaseNumberParser._get_digital_value', 'recognizers_number.number.parsers:BaseNumberParser.__init__']))
     obs.append(Ob('O2.0-state-inventory', 'fn', 'harness.C02:state_inventory', timeout=t,
                   descr='frame condition (static, not a verdict): every class/module-level mutable container or memo in the recogniser packages is on the reviewed list; a new one makes the run inconclusive',
                   bounds='AST scan of the seven library packages, resource tables excluded'))
